@@ -22,7 +22,12 @@ fn report(o: &mut Outcome, what: &str, a: &Dump, b: &Dump, ignore: &dyn Fn(&str)
 }
 
 pub fn run(args: &Args) {
-    let corpus = crate::c02::corpus_files();
+    let mut corpus = crate::c02::corpus_files();
+    let nreal = corpus.len() as u64;
+    // files written by the grammar-based generator (gen/xlsxgen.py): shared formulas, inline strings, tables, ...
+    if let Some(list) = args.get("list") {
+        corpus.extend(std::fs::read_to_string(list).unwrap_or_default().lines().filter(|l| !l.is_empty()).map(std::path::PathBuf::from));
+    }
     let ncorpus = corpus.len() as u64;
     let a2 = Args { cases: args.cases + ncorpus, ..Args::parse() };
     let agg = run_cases(&a2, |seed, k| {
@@ -30,9 +35,9 @@ pub fn run(args: &Args) {
         let mut rng = Rng::new(seed, k);
         let (book, origin, is_corpus) = if k < ncorpus {
             let p = &corpus[k as usize];
-            o.feat("corpus");
+            o.feat(if k < nreal { "corpus" } else { "grammar-generated-file" });
             match guard(|| reader::xlsx::read(p)) {
-                Ok(Ok(b)) => (b, p.file_name().unwrap().to_string_lossy().to_string(), true),
+                Ok(Ok(b)) => (b, if k < nreal { p.file_name().unwrap().to_string_lossy().to_string() } else { "grammar-generated".to_string() }, k < nreal),
                 other => {
                     o.inconclusive = Some(format!("corpus file {:?} not loadable: {:?}", p, other.err()));
                     return o;
@@ -139,7 +144,22 @@ pub fn run(args: &Args) {
             let n = b.get_sheet_count();
             let si = rng.below(n as u64) as usize;
             let existing: Vec<(u32, u32)> = b.get_sheet(&si).map(|ws| ws.get_cell_collection().iter().map(|c| (*c.get_coordinate().get_col_num(), *c.get_coordinate().get_row_num())).collect()).unwrap_or_default();
-            let pos = if !existing.is_empty() && rng.chance(1, 2) { *rng.pick(&existing) } else { (rng.range(1, 30), rng.range(1, 60)) };
+            // formula cells, and members of shared-formula groups in particular, are preferred targets: other cells depend on them
+            let formulas: Vec<(u32, u32)> = b.get_sheet(&si).map(|ws| ws.get_cell_collection().iter().filter(|c| c.is_formula()).map(|c| (*c.get_coordinate().get_col_num(), *c.get_coordinate().get_row_num())).collect()).unwrap_or_default();
+            let shared: Vec<(u32, u32)> = b.get_sheet(&si).map(|ws| ws.get_cell_collection().iter().filter(|c| c.get_formula_shared_index().is_some()).map(|c| (*c.get_coordinate().get_col_num(), *c.get_coordinate().get_row_num())).collect()).unwrap_or_default();
+            let pos = match rng.below(6) {
+                0 | 1 if !shared.is_empty() => {
+                    o.count("edits.on-shared-formula-cell", 1);
+                    // the first member in document order is the master
+                    if rng.chance(1, 2) { *shared.iter().min_by_key(|p| (p.1, p.0)).unwrap() } else { *rng.pick(&shared) }
+                }
+                2 if !formulas.is_empty() => {
+                    o.count("edits.on-formula-cell", 1);
+                    *rng.pick(&formulas)
+                }
+                3 | 4 if !existing.is_empty() => *rng.pick(&existing),
+                _ => (rng.range(1, 30), rng.range(1, 60)),
+            };
             let a1 = helper::coordinate::coordinate_from_index(&pos.0, &pos.1);
             let edited = guard(|| {
                 b.get_sheet_mut(&si).unwrap().get_cell_mut(pos).set_value_string(format!("EDIT-{}", k));
